@@ -82,19 +82,36 @@ def enum_strategy(schema: Schema, full_name: str):
     )
 
 
+def _frac_shapes(lo_s: int, hi_s: int):
+    """Whole seconds plus a fraction of a chosen *shape*: whole milliseconds (incl. < 100 ms, i.e. leading
+    zeros in the 3-digit form), whole microseconds with leading zeros, 999999, ..."""
+    frac = st.one_of(
+        st.sampled_from([0, 1, 5, 50, 999, 1000, 5000, 7000, 50_000, 99_000, 100_000, 500_000, 999_000, 999_999, 100, 10, 1001, 10_000]),
+        st.integers(0, 99).map(lambda ms: ms * 1000),
+        st.integers(0, 999).map(lambda ms: ms * 1000),
+        st.integers(0, 999_999),
+    )
+    return st.tuples(st.integers(lo_s, hi_s), frac)
+
+
 def ts_us_strategy():
     specials = [0, 1, -1, 999999, 10**6, -(10**6), -(10**6) - 1, -1500000, 1500000, TS_MIN_US, TS_MAX_US,
                 TS_MIN_US + 1, TS_MAX_US - 1, 2**53, 2**53 + 1, -(2**53) - 1, 1_000_000_000_123_456,
-                1_700_000_000_000_001, 86400 * 10**6, -86400 * 10**6 + 1]
-    return st.one_of(st.sampled_from(specials), st.integers(TS_MIN_US, TS_MAX_US),
+                1_700_000_000_000_001, 86400 * 10**6, -86400 * 10**6 + 1, 5000, 1_600_000_000_007_000]
+    shaped = _frac_shapes(TS_MIN_US // 10**6, TS_MAX_US // 10**6).map(lambda t: t[0] * 10**6 + t[1])
+    near = _frac_shapes(-(10**7), 10**7).map(lambda t: t[0] * 10**6 + t[1])
+    return st.one_of(st.sampled_from(specials), st.integers(TS_MIN_US, TS_MAX_US), shaped, near,
                      st.integers(-(10**13), 10**13))
 
 
 def dur_us_strategy():
     specials = [0, 1, -1, 999999, -999999, 10**6, -(10**6), 1500000, -1500000, -500000, 500000, DUR_MAX_US,
                 -DUR_MAX_US, DUR_MAX_US - 1, -DUR_MAX_US + 1, 2**53 + 1, -(2**53) - 1, 2**53 + 3,
-                9007199254740993, -9007199254740993, 10**15 + 1, -(10**15) - 1]
-    return st.one_of(st.sampled_from(specials), st.integers(-DUR_MAX_US, DUR_MAX_US),
+                9007199254740993, -9007199254740993, 10**15 + 1, -(10**15) - 1, 5000, -7000, -1_050_000]
+    shaped = st.tuples(_frac_shapes(0, DUR_MAX_US // 10**6 - 1), st.sampled_from([1, -1])).map(
+        lambda t: t[1] * (t[0][0] * 10**6 + t[0][1]))
+    near = st.tuples(_frac_shapes(0, 10**5), st.sampled_from([1, -1])).map(lambda t: t[1] * (t[0][0] * 10**6 + t[0][1]))
+    return st.one_of(st.sampled_from(specials), st.integers(-DUR_MAX_US, DUR_MAX_US), shaped, near,
                      st.integers(-(10**9), 10**9))
 
 
@@ -199,8 +216,18 @@ def f32(x: float) -> float:
         return math.inf if x > 0 else -math.inf
 
 
+def _bad(v):
+    return ("badtype", type(v).__name__, repr(v)[:40])
+
+
 def _norm_scalar(t: str, v):
+    """Normal form of a scalar; a value of the wrong Python type becomes a ('badtype', ...) marker
+    (it then simply compares unequal - the oracle never crashes on what the code under test returns)."""
+    if isinstance(v, tuple) and v and v[0] == "badtype":
+        return v
     if t in ("float", "double"):
+        if isinstance(v, bool) or not isinstance(v, (int, float)):
+            return _bad(v)
         v = float(v)
         if t == "float":
             v = f32(v)
@@ -210,15 +237,21 @@ def _norm_scalar(t: str, v):
             return 0.0
         return v
     if t == "bool":
-        return bool(v)
+        return v if isinstance(v, bool) else _bad(v)
     if t == "enum" or t in INT_RANGES:
+        if isinstance(v, bool) or not isinstance(v, int):
+            return _bad(v)
         return int(v)
     if t == "bytes":
-        return bytes(v)
+        return bytes(v) if isinstance(v, (bytes, bytearray)) else _bad(v)
+    if t == "string":
+        return v if isinstance(v, str) else _bad(v)
     return v
 
 
 def _is_default(t: str, nv) -> bool:
+    if isinstance(nv, tuple):
+        return False
     if t in ("float", "double"):
         return nv == 0.0 and nv != "NaN"
     if t == "bool":
@@ -232,11 +265,11 @@ def _is_default(t: str, nv) -> bool:
 
 def norm_single(schema: Schema, fi: FI, v):
     if fi.wkt in ("timestamp", "duration"):
-        return int(v)
+        return int(v) if isinstance(v, int) and not isinstance(v, bool) else (v if isinstance(v, tuple) else _bad(v))
     if fi.wkt == "wrapper":
         return _norm_scalar(fi.wraps, v)
     if fi.type == "message":
-        return norm(schema, schema.msg(fi.msg), v)
+        return norm(schema, schema.msg(fi.msg), v) if isinstance(v, dict) else _bad(v)
     return _norm_scalar(fi.type, v)
 
 
@@ -254,7 +287,9 @@ def norm(schema: Schema, mi: MI, tree: Dict[str, Any]) -> Dict[str, Any]:
         if fi.name not in tree:
             continue
         v = tree[fi.name]
-        if fi.card == "repeated":
+        if isinstance(v, tuple) and v and v[0] == "badtype":
+            out[fi.name] = v
+        elif fi.card == "repeated":
             items = [norm_single(schema, fi, x) for x in v]
             if items:
                 out[fi.name] = items
@@ -554,7 +589,9 @@ def _bp_snap_single(schema, info, fi: FI, v):
     if fi.wkt == "wrapper":
         return v
     if fi.type == "message":
-        return snap_bp(schema, schema.msg(fi.msg), v)
+        import betterproto
+
+        return snap_bp(schema, schema.msg(fi.msg), v) if isinstance(v, betterproto.Message) else _bad(v)
     return v
 
 
@@ -575,14 +612,17 @@ def snap_bp(schema: Schema, mi: MI, m) -> Dict[str, Any]:
             continue
         v = getattr(m, name)
         if fi.card == "repeated":
-            out[fi.name] = [_bp_snap_single(schema, info, fi, x) for x in v]
+            out[fi.name] = [_bp_snap_single(schema, info, fi, x) for x in v] if isinstance(v, list) else _bad(v)
         elif fi.card == "map":
-            out[fi.name] = {k: _bp_snap_single(schema, info, fi.val, x) for k, x in v.items()}
+            out[fi.name] = {k: _bp_snap_single(schema, info, fi.val, x) for k, x in v.items()} if isinstance(v, dict) else _bad(v)
         elif fi.card == "optional" or fi.wkt == "wrapper":
             if v is None:
                 continue
             out[fi.name] = _bp_snap_single(schema, info, fi, v)
         elif fi.type == "message" and fi.wkt is None:
+            if not isinstance(v, betterproto.Message):
+                out[fi.name] = _bad(v)
+                continue
             if not betterproto.serialized_on_wire(v):
                 continue
             out[fi.name] = _bp_snap_single(schema, info, fi, v)
